@@ -121,7 +121,11 @@ func sortNPMDependencies(deps []RequirementVersion) {
 	// In case of matching lowercase, lower is considered less than upper
 	// ("a" < "A", that is the contrary of what go does, but is logic for
 	// NPM as uppercase is considered deprecated in names, so it favors lower).
-	sort.Slice(deps, func(i, j int) bool {
+	// The sort is stable: dependencies that share a name (for instance an
+	// aliased dependency and the bundleDependencies entry for that alias)
+	// stay in the order they were given, rather than in an order that depends
+	// on the length of the list.
+	sort.SliceStable(deps, func(i, j int) bool {
 		a, b := deps[i], deps[j]
 		// Sort dev alone at the end.
 		if devA, devB := a.Type.Equal(dev), b.Type.Equal(dev); devA != devB {
